@@ -976,6 +976,7 @@ func (s *Store[K, V]) processSecondary() {
 // Wait blocks until the write channel is drained.
 func (s *Store[K, V]) Wait() {
 	s.writeChan <- WriteBufItem[K, V]{code: WAIT}
+	verifPoint(vpWaitAfterSend)
 	<-s.waitChan
 }
 
